@@ -1,5 +1,7 @@
 package main
 
+import "verif/internal/report"
+
 // Rules that changed their method late in the fifth session (DESIGN.md §12): the text the manifest and the
 // evidence carry.
 func init() {
@@ -20,6 +22,9 @@ func init() {
 			}
 		}
 	}
+	extendProp("C14", "linear (see C02): a name the grammar parsed must be in the tree to be resolved - a production that takes a carrier apart and does not place one of its fields loses that name (round 7 seed C14-20: `Hello::say as print` built without the Trait of its method reference, in one of four sibling productions). name-sinks/guard: in a resolver method the resolution of the name in a slot is skipped only by a test of that slot itself - an early return or an enclosing test on another slot leaves exactly the nodes that lack the other slot unresolved (round 7 seed C14-21: `if n.Name == nil { return }` ahead of the resolution of Extends and Implements: anonymous classes).",
+		[]report.Floor{{Rule: "linear", What: "productions", Min: 1000}},
+		func(c *Ctx) { defer c.cleanup(); c.flows_("linear") })
 	for _, id := range []string{"C09", "C03", "C08"} {
 		extendProp(id, "order-domain/New: version.New is evaluated from source on 34 strings around `<number>.<number>` (signs, blanks, hex, underscores, overflow, missing and extra parts) against the rule \"exactly one dot separates two base-10 numbers that fit 64 bits\"; the provenance of the two fields (ParseUint of segment 0 and 1) is read only when the function cannot be evaluated.", nil, none)
 	}
